@@ -33,6 +33,7 @@ func stripConvTo(v ssa.Value) ssa.Value { return v }
 func runC10(c *Ctx, w *World, r *Report) {
 	names := []string{"bmtree.NewPath", "bmtree.PathBits", "bmtree.PathMask", "bmtree.PathLen", "bmtree.PathHeight", "bmtree.PathStr"}
 	fns, ok := requireFuncs(w, r, names...)
+	ReportTableWidth(w, r)
 	ReportScale(w, r, names...)
 	if !ok {
 		return
